@@ -30,7 +30,7 @@ func init() {
 		Assumptions: []string{"the SQL table has PRIMARY KEY (id, created) as documented", "DynamoDB attribute_not_exists(<hash key>) rejects an existing item with the same primary key"},
 		Tech:        "static analysis: request-shape analysis (constant-folded struct-literal fields, SQL constants tokenised), guarded-by-condition, lock-state dataflow, interface method-set and who-writes checks across all Metastore implementations",
 		NeedU1:      true,
-		Rules:       []func(*Ctx){ruleC13InsertOnly, ruleC13NoOtherWrites, ruleC13StoreResult, ruleC13ConsistentReads, ruleC13FieldFidelity},
+		Rules:       []func(*Ctx){ruleC13InsertOnly, ruleC13NoOtherWrites, ruleC13StoreResult, ruleC13ConsistentReads, ruleC13FieldFidelity, ruleC13KeyFidelity, lockBalancedRule("C13", 3, lockDomSpec{pkgPersist, "MemoryMetastore", "RWMutex"})},
 	})
 }
 
@@ -582,6 +582,31 @@ func ruleC13StoreResult(c *Ctx) {
 			}
 			c.check(good, construct, u.ipos(r), "true only after the backend write succeeded (err known nil)", "Store reports success on a path where the backend write did not happen or its error is not known to be nil")
 		}
+		// and the successful insert is reported as true: a return reached with the write's error known nil (memory: after
+		// the map write) and a nil error result must carry true
+		for _, r := range returnsOf(store) {
+			if !isNilValue(returnedValue(r, 1)) {
+				continue
+			}
+			k, isC := constOf(returnedValue(r, 0))
+			if !isC || k.ExactString() != "false" {
+				continue
+			}
+			for _, w := range writes {
+				if !instrDominates(w, r) {
+					continue
+				}
+				succeeded := m.Kind == "memory"
+				for _, pr := range resultsOfType(w, isErrorType) {
+					if pr[0] != nil && knownNil(pr[0], r.Block()) {
+						succeeded = true
+					}
+				}
+				if succeeded {
+					c.bad(name+"/success-reported", u.ipos(r), "Store returns (false, nil) after the backend write succeeded: the caller treats its own freshly stored key as a lost race, discards it and reloads")
+				}
+			}
+		}
 	}
 }
 
@@ -777,6 +802,37 @@ func ruleC13FieldFidelity(c *Ctx) {
 			got := localNameRe.ReplaceAllString(fieldProvenanceSub(v, sub), "L")
 			if !strings.HasSuffix(got, from) {
 				problems = append(problems, fmt.Sprintf("%s comes from %s, expected …%s", field, got, from))
+			}
+		}
+		// optional nested records (ParentKeyMeta): a `nil or converted literal` choice must follow the source pointer —
+		// converted exactly where the source is known non-nil, nil only where it is known nil
+		for field := range want {
+			phi, isPhi := resolve(fl[field]).(*ssa.Phi)
+			if !isPhi || sub != nil {
+				continue
+			}
+			for k, e := range phi.Edges {
+				pr := phi.Block().Preds[k]
+				facts := append(append([]Fact{}, factsAt(pr)...), edgeFacts(pr, phi.Block())...)
+				if len(pr.Preds) == 1 && len(pr.Instrs) <= 1 {
+					facts = append(facts, edgeFacts(pr.Preds[0], pr)...)
+				}
+				srcNil, srcNonNil := false, false
+				for _, fct := range facts {
+					if x, isNil, ok := nilTest(fct); ok && fct.Sub == nil && strings.HasSuffix(trimAddr(accessPath(x)), "."+field) {
+						if isNil {
+							srcNil = true
+						} else {
+							srcNonNil = true
+						}
+					}
+				}
+				switch {
+				case isNilConst(strip(e)) && srcNonNil:
+					problems = append(problems, field+" is dropped (nil) on the path where the source "+field+" is non-nil")
+				case !isNilConst(strip(e)) && srcNil:
+					problems = append(problems, field+" is converted on the path where the source "+field+" is nil (nil dereference), and dropped where it is present")
+				}
 			}
 		}
 		_ = src
